@@ -74,6 +74,8 @@ type Interp struct {
 	solver *Solver
 
 	rand     *rand.Rand // non-nil: random-concrete mode (translator validation)
+	nthreads   int
+	schedRoots []Value
 	lastModel map[string]uint64
 	objNames map[*Value]string
 	ptrIDs   map[*Value]int
@@ -648,6 +650,9 @@ func (in *Interp) visitInstr(fr *frame, instr ssa.Instruction) continuation {
 		m := fr.get(instr.Map).(*Map)
 		k := fr.get(instr.Key)
 		in.mapEvent(m, "wr", k)
+		if in.thread != nil {
+			in.schedMapWrite(fr.get(instr.Value), false)
+		}
 		in.mapInsert(m, k, copyVal(fr.get(instr.Value)))
 
 	case *ssa.TypeAssert:
@@ -769,6 +774,11 @@ func (in *Interp) load(addr Value) Value {
 			panic(runtimeError("invalid memory address or nil pointer dereference"))
 		}
 		in.cellEvent(p, false)
+		if in.thread != nil {
+			if v, ok := in.schedLoad(p); ok {
+				return copyVal(v)
+			}
+		}
 		return copyVal(*p)
 	case SymPtr:
 		return in.tc.Select(p.Mem.Arr, p.Idx)
@@ -783,6 +793,9 @@ func (in *Interp) store(addr Value, v Value) {
 			panic(runtimeError("invalid memory address or nil pointer dereference"))
 		}
 		in.cellEvent(p, true)
+		if in.thread != nil {
+			in.schedStoreValue(p, v)
+		}
 		assignCell(p, v)
 		return
 	case SymPtr:
@@ -1303,6 +1316,11 @@ func (in *Interp) lookup(instr *ssa.Lookup, x, idx Value) Value {
 	case *Map:
 		in.mapEvent(x, "rd", idx)
 		v, ok := in.mapLookup(x, idx)
+		if in.thread != nil {
+			if cv, cok, over := in.schedMapRead(); over {
+				v, ok = cv, cok
+			}
+		}
 		if !ok {
 			v = in.zero(instr.X.Type().Underlying().(*types.Map).Elem())
 		} else {
@@ -1368,6 +1386,9 @@ func (in *Interp) callBuiltin(caller *frame, pos token.Pos, fn *ssa.Builtin, arg
 	case "delete":
 		m := args[0].(*Map)
 		in.mapEvent(m, "wr", args[1])
+		if in.thread != nil {
+			in.schedMapWrite(nil, true)
+		}
 		in.mapDelete(m, args[1])
 		return nil
 	case "clear":
@@ -1662,6 +1683,9 @@ func (in *Interp) chanRecv(c *Chan) (Value, bool) {
 		// for another thread's close/send; the trace records it and
 		// continues as if it had been closed (wait-for-close idiom).
 		if in.thread.recvWaits {
+			if in.schedOn() {
+				in.thread.trace.Events[len(in.thread.trace.Events)-1].Mode = "wait"
+			}
 			return nil, false
 		}
 	}
